@@ -43,21 +43,37 @@ class CaseTimeout(BaseException):
 import contextlib
 
 
+# set by the SIGALRM handler every time it raises: an exception raised inside a C callback (a scipy integrator calling
+# back into Python, a tp_clear) can be swallowed by the interpreter ("Exception ignored in ..."), the interrupted
+# computation then carries on with a corrupted intermediate result.  Whoever armed the timer looks at this flag when
+# the timed region ends normally and treats the region as timed out - its result is never judged.
+_ALARM = {"fired": False}
+
+
 @contextlib.contextmanager
 def time_limit(sec):
     """inner time limit inside a worker (re-arms the worker's own alarm afterwards); raises CaseTimeout"""
     import signal
     old, _ = signal.setitimer(signal.ITIMER_REAL, 0)
     t0 = time.time()
+    outer_fired = _ALARM["fired"]
+    _ALARM["fired"] = False
     # repeating timer: an alarm delivered inside a context that swallows exceptions (weakref finalizers,
     # __del__) would otherwise be lost and the limit with it
     signal.setitimer(signal.ITIMER_REAL, float(sec), 0.5)
+    ok = False
     try:
         yield
+        ok = True
     finally:
         signal.setitimer(signal.ITIMER_REAL, 0)
+        fired = _ALARM["fired"]
+        _ALARM["fired"] = outer_fired
         if old:
             signal.setitimer(signal.ITIMER_REAL, max(0.5, old - (time.time() - t0)), 0.5)
+        if ok and fired:
+            # the alarm went off inside the region but its exception was swallowed: the region's result is not to be used
+            raise CaseTimeout()
 
 
 def _alarm(signum, frame):
@@ -70,6 +86,7 @@ def _alarm(signum, frame):
             return
         f = f.f_back
     signal.setitimer(signal.ITIMER_REAL, 0)
+    _ALARM["fired"] = True
     raise CaseTimeout()
 
 
@@ -83,8 +100,12 @@ def _worker(args):
         limit = int(getattr(mod, "CASE_TIMEOUT", 120))
         signal.signal(signal.SIGALRM, _alarm)
         signal.setitimer(signal.ITIMER_REAL, float(limit), 0.5)
+        _ALARM["fired"] = False
         try:
             r = mod.run_case(case)
+            if _ALARM["fired"]:
+                # the per-case alarm went off but its exception was swallowed inside a C callback: not a verdict
+                raise CaseTimeout()
         except CaseTimeout:
             # a slow case is not a verdict; it is counted and reported (see "case_timeout" in the evidence)
             return {"nontrivial": False, "tags": ["case_timeout"], "violations": [], "mismatches": [], "wall": time.time() - t0,
